@@ -330,8 +330,9 @@ impl Property for C13 {
         replay_typed::<Case, _>(case, stats, check)
     }
     fn isolated_plans(&self, tier: Tier, seed: u64) -> Vec<Value> {
+        // (both id scatterings on every seed: some slips depend on the id order of the members)
         let mult = [104_729u32, 7919][(seed % 2) as usize];
-        let mut out = vec![json!({"big": (1200u32, mult, 30u32, 300u32)})];
+        let mut out = vec![json!({"big": (1200u32, 104_729u32, 30u32, 300u32)}), json!({"big": (900u32, 7919u32, 20u32, 130u32)})];
         if tier == Tier::Thorough {
             out.push(json!({"big": (70_000u32, mult, 300u32, 66_000u32)}));
             out.push(json!({"big": (5000u32, mult, 300u32, 4100u32)}));
